@@ -9,12 +9,14 @@ import (
 	"flag"
 	"fmt"
 	"go/ast"
+	"go/build/constraint"
 	"go/importer"
 	"go/parser"
 	"go/token"
 	"go/types"
 	"os"
 	"path/filepath"
+	"runtime"
 	"sort"
 	"strconv"
 	"strings"
@@ -188,9 +190,21 @@ func instrumentPkg(repo, rel, pkgName, out string, replace map[string]string, fu
 		}
 		// build constraints: js && wasm files become verif-only native files
 		if full || wasmMain {
+			// a file that the NATIVE build already includes keeps its constraint; a file that only the js/wasm build
+			// includes (the binding) is offered to the native instrumented build; any other file stays excluded
 			lines := strings.SplitN(string(sf.src), "\n", 3)
-			if len(lines) > 0 && strings.HasPrefix(lines[0], "//go:build") && strings.Contains(lines[0], "wasm") {
-				add(0, len(lines[0]), "//go:build verif", false)
+			if len(lines) > 0 && strings.HasPrefix(lines[0], "//go:build") {
+				if x, err := constraint.Parse(lines[0]); err == nil {
+					native := x.Eval(func(tag string) bool {
+						return tag == runtime.GOOS || tag == runtime.GOARCH || tag == "verif" || tag == "instr" || tag == "unix" || tag == "gc" || strings.HasPrefix(tag, "go1.")
+					})
+					wasm := x.Eval(func(tag string) bool {
+						return tag == "js" || tag == "wasm" || tag == "verif" || tag == "instr" || tag == "gc" || strings.HasPrefix(tag, "go1.")
+					})
+					if !native && wasm {
+						add(0, len(lines[0]), "//go:build verif", false)
+					}
+				}
 			}
 		}
 		// imports: sync -> shim
